@@ -1,3 +1,5 @@
 import KernModel.Basic
 import KernModel.Cat
 import KernModel.Spec.CatTree
+import KernModel.Pitch
+import KernModel.Spec.Interval
